@@ -231,8 +231,19 @@ func matrixJSON(m promql.Matrix) []byte {
 
 // ---------- query rendering ----------
 
-func render(e map[string]any) string {
-	ls := func() string { x := vt.Strs(e["ls"]); sort.Strings(x); return strings.Join(x, ",") }
+// render turns a TLC expression into PromQL.  Grouping / matching label lists are SETS in the model;
+// the text order is chosen by ord (a seeded shuffle), because the order written in the query reaches
+// ShardInfo.Labels unchanged and must not matter.
+func render(e map[string]any, ord func(n int) []int) string {
+	ls := func() string {
+		x := vt.Strs(e["ls"])
+		sort.Strings(x)
+		y := make([]string, len(x))
+		for i, j := range ord(len(x)) {
+			y[i] = x[j]
+		}
+		return strings.Join(y, ",")
+	}
 	switch vt.Str(e["k"]) {
 	case "sel":
 		if n := vt.Str(e["name"]); n != "*" {
@@ -244,15 +255,15 @@ func render(e map[string]any) string {
 		if vt.Bool(e["by"]) {
 			mode = "by"
 		}
-		return fmt.Sprintf("%s %s (%s) (%s)", vt.Str(e["op"]), mode, ls(), render(vt.Map(e["e"])))
+		return fmt.Sprintf("%s %s (%s) (%s)", vt.Str(e["op"]), mode, ls(), render(vt.Map(e["e"]), ord))
 	case "bin":
 		mode := "ignoring"
 		if vt.Bool(e["on"]) {
 			mode = "on"
 		}
-		return fmt.Sprintf("(%s) + %s (%s) (%s)", render(vt.Map(e["l"])), mode, ls(), render(vt.Map(e["r"])))
+		return fmt.Sprintf("(%s) + %s (%s) (%s)", render(vt.Map(e["l"]), ord), mode, ls(), render(vt.Map(e["r"]), ord))
 	case "lrep":
-		return fmt.Sprintf(`label_replace(%s, "%s", "$1", "%s", "(.*)")`, render(vt.Map(e["e"])), vt.Str(e["dst"]), vt.Str(e["src"]))
+		return fmt.Sprintf(`label_replace(%s, "%s", "$1", "%s", "(.*)")`, render(vt.Map(e["e"]), ord), vt.Str(e["dst"]), vt.Str(e["src"]))
 	}
 	panic("unknown node " + vt.Str(e["k"]))
 }
@@ -372,6 +383,10 @@ var concreteQueries = []string{
 	`sum by (a) (m1) * 2`,
 	`-sum by (b) (m2)`,
 	`sum by (a) (m1{a="x"}) + on () group_right () sum by (a) (m2)`,
+	`sum without (b, a) (m1)`,
+	`sum without (b, a) ({__name__=~"m1|m2"})`,
+	`max by (b, a) (m1) + on (b, a) min by (b, a) (m2)`,
+	`sum without (le, b, a) (m1)`,
 	`count by (a) (sum by (b) (max by (a, b) (m1)))`,
 	`count by (b) (sum by (a) (max by (a, b) (m1)))`,
 	`sum by (a) (count by (a, b) (max without (b) (m1)))`,
@@ -418,8 +433,8 @@ func TestC44(t *testing.T) {
 			if i >= keep {
 				break
 			}
-			q := render(vt.Map(vt.Normalize(c)["expr"]))
 			for k := 0; k < worldsPer; k++ {
+				q := render(vt.Map(vt.Normalize(c)["expr"]), rnd.Perm)
 				yield(vt.Case{"query": q, "expr": c["expr"], "nshards": 2 + rnd.Intn(3), "instant": rnd.Intn(3) == 0, "series": randWorld(rnd, []string{"a", "b"}, vt.Pick(4, 7), false)})
 			}
 		}
